@@ -75,7 +75,7 @@ def dispatch(repo: Repo, R, noret):
     groups = {"Options": "isinstance(attr, data.Options)" in txt and "self.inp.opts.append(export_options(attr))" in txt,
               "Analysis": "is_analysis(attr)" in txt and "self.inp.an.append(self.export_analysis(attr))" in txt,
               "Control": "is_control(attr)" in txt and "self.inp.ctrls.append(export_control(attr))" in txt}
-    falls = au.raises(fe.node.body, noret) or _chain_else_raises(fe, noret)
+    falls = au.default_raises(fe.node.body, noret) or _chain_else_raises(fe, noret)
     R.check(all(groups.values()) and falls, rule, key_of(fe), fe.site, f"export_attr routes options/analyses/controls to opts/an/ctrls: {groups}; anything else raises: {falls}", why="a group of attributes is dropped or appended to the wrong list")
     for name, pred in (("is_analysis", "Analysis"), ("is_control", "Control"), ("is_simattr", "SimAttr"), ("is_sweep", "Sweep")):
         f = repo.func(F_SIMDATA, name)
@@ -100,7 +100,7 @@ def dispatch(repo: Repo, R, noret):
                 want = f"{ctor}({field}=vsp.{cls}(...))"
             R.check(ok, rule, key_of(fi, cls), fi.at(n), f"{cls} -> `{got[:80]}`; expected `{want}`", why=f"a {cls} is exported into the wrong variant of the VLSIR message")
         extra = set(a) - set(members)
-        fall = _chain_else_raises(fi, noret) or au.raises(fi.node.body, noret)
+        fall = _chain_else_raises(fi, noret) or au.default_raises(fi.node.body, noret)
         R.check(fall, rule, key_of(fi, "else-raises"), fi.site, f"{fi.name}: unknown variants raise: {fall}", why="an unknown variant exports as an empty message")
 
     arm_table(repo.func(F_SIMPROTO, "SimProtoExporter.export_analysis"), "an", an, ANALYSIS_ARMS, "vsp.Analysis", True)
@@ -120,7 +120,7 @@ def dispatch(repo: Repo, R, noret):
     ok = modes.get("ALL") == "mode = vsp.Save.SaveMode.ALL" and modes.get("NONE") == "mode = vsp.Save.SaveMode.NONE"
     R.check(ok, rule, key_of(fs, "modes"), fs.site, f"save modes: {modes}", why="Save(ALL) exports as NONE or vice versa")
     join = {k: v for k, v in forms.items() if k.startswith("list")}
-    ok = forms.get("Signal") == "save.targ.name" and forms.get("str") == "save.targ" and forms.get("list[Signal]") == "','.join([s.name for s in save.targ])" and forms.get("list[str]") in ("','.join([s for s in save.targ])", "','.join(save.targ)")
+    ok = forms.get("Signal") == "save.targ.name" and forms.get("str") == "save.targ" and forms.get("list[Signal]") in ("','.join((s.name for s in save.targ))", "','.join([s.name for s in save.targ])") and forms.get("list[str]") in ("','.join([s for s in save.targ])", "','.join(save.targ)")
     R.check(ok, rule, key_of(fs, "payload"), fs.site, f"save payloads: {forms}", why="the saved signal names are wrong or in the wrong order")
 
 
@@ -196,16 +196,16 @@ def narrowed_attrs(repo: Repo, R):
                 if not isinstance(node, ast.If):
                     continue
                 r = au.isinstance_classes(node.test) if isinstance(node.test, ast.Call) else None
-                if not r or not isinstance(r[0], ast.Name) or len(r[1]) != 1:
+                if not r or not isinstance(r[0], (ast.Name, ast.Attribute)) or len(r[1]) != 1:
                     continue
                 cname = (dotted(r[1][0]) or "").split(".")[-1]
                 if cname not in MAGIC:
                     continue
                 ci = repo.cls(MAGIC[cname], cname)
                 have = shared.instance_attrs(repo, ci)
-                var = r[0].id
+                var = ast.unparse(r[0])
                 for x in ast.walk(ast.Module(node.body, [])):
-                    if isinstance(x, ast.Attribute) and isinstance(x.value, ast.Name) and x.value.id == var and isinstance(x.ctx, ast.Load):
+                    if isinstance(x, ast.Attribute) and isinstance(x.value, (ast.Name, ast.Attribute)) and ast.unparse(x.value) == var and isinstance(x.ctx, ast.Load):
                         n += 1
                         ok = x.attr in have
                         if cname in ("BundleInstance",) and not ok:
@@ -252,12 +252,9 @@ def order_and_names(repo: Repo, R, noret):
 def testbench(repo: Repo, R, noret):
     rule = "C17.6-testbench"
     fx = repo.func(F_SIMPROTO, "SimProtoExporter.export")
-    g = None
-    for n in au.walk_no_nested(fx.node):
-        if isinstance(n, ast.If) and ast.unparse(n.test) == "not data.is_tb(self.sim.tb)" and au.raises(n.body, noret):
-            g = n
+    g = shared.fails_unless(fx.node, "data.is_tb(self.sim.tb)", noret)
     ctor = [c for c, _b in pat.find("vsp.SimInput(*$_)", fx.node)]
-    before = g is not None and ctor and g.lineno < ctor[0].lineno
+    before = g is not None and ctor and any(t is g.test and pol for t, pol in shared.path_conditions(fx.node, ctor[0]))
     kw = {k.arg: ast.unparse(k.value) for k in ctor[0].keywords} if ctor else {}
     R.check(bool(before) and kw.get("top") == "qualname(self.sim.tb)" and kw.get("pkg") == "self.pkg", rule, key_of(fx), fx.site,
             f"the testbench interface is checked (and failure raises) before the SimInput is built: {bool(before)}; SimInput(pkg=self.pkg, top=qualname(self.sim.tb)): {kw}",
@@ -267,9 +264,24 @@ def testbench(repo: Repo, R, noret):
     R.check(ok, rule, key_of(ft), ft.site, f"all testbenches are co-exported into one package, then every Sim is exported against it, in order: {ok}", why="a testbench is exported twice (or not at all) when several Sims are exported together")
     fi = repo.func(F_SIMDATA, "is_tb")
     a = fi.node.args.args[0].arg
-    one = any(isinstance(n, ast.If) and au.cmp_norm(n.test) == au.cmp_norm(ast.parse(f"len({a}.ports) != 1", mode="eval").body) and ast.unparse(n.body[-1]) == "return False" for n in au.walk_no_nested(fi.node))
-    last = fi.node.body[-1]
-    scal = isinstance(last, ast.Return) and ast.unparse(last.value) == "port.width == 1" and bool(pat.find(f"port = list({a}.ports.values())[0]", fi.node))
+    from .. import fde
+
+    one = scal = False
+    try:
+        def m_kind(t):
+            r = au.isinstance_classes(t) if isinstance(t, ast.Call) else None
+            return r is not None and ast.unparse(r[0]) == a
+
+        def m_one(t):
+            s_ = ast.unparse(t)
+            return True if s_ in (f"len({a}.ports) == 1", f"1 == len({a}.ports)") else False
+
+        body = [st for st in fi.node.body if not (isinstance(st, ast.Expr) and isinstance(st.value, ast.Constant))]
+        tab = fde.decision_table(body, [("kind", m_kind), ("one", m_one)], ["<return>"], lambda v: shared.prov_text(fi.node, v), tolerant=True)
+        one = tab[(True, False)]["<return>"] == "False"
+        scal = tab[(True, True)]["<return>"] in (f"list({a}.ports.values())[0].width == 1", f"next(iter({a}.ports.values())).width == 1")
+    except fde.Unknown:
+        pass
     R.check(one and scal, rule, key_of(fi), fi.site, f"is_tb: exactly one port ({one}) of width one ({scal})", why="a testbench that does not have exactly one scalar port is accepted")
 
 
@@ -279,7 +291,7 @@ def numeric(repo: Repo, R):
     a = fe.node.args.args[0].arg
     ok = any(isinstance(n, ast.If) and "Prefixed" in ast.unparse(n.test) and ast.unparse(n.body[-1]) == f"return float({a})" for n in au.walk_no_nested(fe.node))
     passthru = any(isinstance(n, ast.If) and ast.unparse(n.test) == f"isinstance({a}, float)" and ast.unparse(n.body[-1]) == f"return {a}" for n in au.walk_no_nested(fe.node))
-    fall = au.raises(fe.node.body)
+    fall = au.default_raises(fe.node.body)
     R.check(ok and passthru and fall, rule, key_of(fe), fe.site, f"export_float: Prefixed/int/Decimal -> float(x) once ({ok}); floats unchanged ({passthru}); other types raise ({fall})", why="numeric simulation inputs are not the float nearest the prefixed value")
     # every numeric proto field goes through export_float
     n = 0
